@@ -1,7 +1,177 @@
 import CddVerif.Driver.Basic
+import CddVerif.Py.AstJson
+import CddVerif.Model.GenModule
 /-! Driver ops for C19 (line protocol; see Main.lean). Only Mathlib-free imports here. -/
 namespace Driver.C19
-open Lean Driver
+open Lean Driver Py PyAst GenImports GenModule
 
-def ops : List (String × Handler) := []
+def errName : Err → String
+  | .keyError => "KeyError" | .indexError => "IndexError" | .valueError => "ValueError" | .typeError => "TypeError"
+  | .moduleNotFound => "ModuleNotFoundError" | .notImplemented => "NotImplementedError" | .syntaxError => "SyntaxError"
+  | .assertionError => "AssertionError" | .ioError => "OSError" | .attributeError => "AttributeError"
+  | .stopIteration => "StopIteration" | .entry c => c | .outside w => "outside:" ++ w
+
+def emitOf : String → Except String EmitKind
+  | "argparse" => pure .argparse | "class" => pure .class_ | "function" => pure .function | "json_schema" => pure .jsonSchema
+  | "pydantic" => pure .pydantic | "sqlalchemy" => pure .sqlalchemy | "sqlalchemy_hybrid" => pure .sqlalchemyHybrid
+  | "sqlalchemy_table" => pure .sqlalchemyTable | s => throw s!"bad emit kind {s}"
+def parseOf : String → Except String ParseKind
+  | "argparse" => pure .argparse | "class" => pure .class_ | "function" => pure .function | "json_schema" => pure .jsonSchema
+  | "pydantic" => pure .pydantic | "sqlalchemy" => pure .sqlalchemy | "sqlalchemy_hybrid" => pure .sqlalchemyHybrid
+  | "sqlalchemy_table" => pure .sqlalchemyTable | "infer" => pure .infer | s => throw s!"bad parse kind {s}"
+def parserNameS : ParserName → String
+  | .class_ => "class_" | .function => "function" | .jsonSchema => "json_schema" | .pydantic => "pydantic" | .sqlalchemy => "sqlalchemy"
+def kwKeyS : KwKey → String
+  | .functionName => "function_name" | .className => "class_name" | .decoratorList => "decorator_list"
+  | .emitCall => "emit_call" | .identifier => "identifier" | .tableName => "table_name"
+
+def flag (j : Json) (k : String) : Bool := (getBool j k).toOption.getD false
+
+/-- `{"k": "cls", "base": bool} | {"k": "fn", "async": bool, "ap": bool} | {"k": "json"} | {"k": "assign"} | {"k": "other"}` -/
+def nodeOf (j : Json) : Except String NodeKind := do
+  match (← getStr j "k") with
+  | "cls" => pure (.cls (flag j "base"))
+  | "fn" => pure (.fn (flag j "async") (flag j "ap"))
+  | "json" => pure .json
+  | "assign" => pure .assign
+  | _ => pure .otherStmt
+
+def entryOf (j : Json) : Except String Entry := do
+  return ⟨← getChars j "name", ← nodeOf (← j.getObjVal? "node")⟩
+
+def res (r : Except Err Json) : Json :=
+  match r with
+  | .ok v => Json.mkObj [("ok", v)]
+  | .error e => Json.mkObj [("error", Json.str (errName e))]
+
+def tablesOf (j : Json) : Except String Tables := do
+  let a ← getArr j "tables"
+  a.toList.mapM (fun t => do
+    let names ← getArr t "names"
+    let ns ← names.toList.mapM (fun n => do return (← n.getStr?).toList)
+    return ((← getChars t "module"), ns))
+
+def impsJ (l : List Imp) : Json := strs (l.map Imp.render)
+
+def inferErrS : InferErr → String
+  | .collect .assertion => "AssertionError"
+  | .collect .unorderable => "TypeError"
+  | .noneNotIterable => "TypeError"
+
+/-- per-entry results of the real parser / emitter, looked up by entry name -/
+def worldOf (entries : Array Json) : World :=
+  let find (e : Entry) : Option Json := entries.toList.find? (fun j => (getChars j "name").toOption == some e.name)
+  { parse := fun _ e =>
+      match find e with
+      | Option.none => .error (.entry "no-such-entry")
+      | some j =>
+        match getStr j "parse_error" with
+        | .ok c => .error (.entry c)
+        | .error _ => match getChars j "ir_name" with
+                      | .ok n => .ok n
+                      | .error _ => .ok []
+    emit := fun _ _ e =>
+      match find e with
+      | Option.none => .error (.entry "no-such-entry")
+      | some j =>
+        match getStr j "emit_error" with
+        | .ok c => .error (.entry c)
+        | .error _ => match j.getObjVal? "stmt" with
+                      | .ok (.obj o) => .ok (stmtOf (.obj o))
+                      | _ => .error (.entry "unavailable") }
+
+def cfgOf (j : Json) : Except String Cfg := do
+  let prepend : Option (List Stmt × Bool) := match j.getObjVal? "prepend" with
+    | .ok (.obj o) => some (moduleOf ((Json.obj o).getObjValD "stmts"), flag (.obj o) "complete")
+    | _ => Option.none
+  let fileImports : Option (List Stmt) := match j.getObjVal? "file_imports" with
+    | .ok (.arr a) => some (moduleOf (.arr a))
+    | _ => Option.none
+  let tables ← match j.getObjVal? "tables" with
+    | .ok (.arr _) => tablesOf j
+    | _ => pure []
+  return { tpl := ← getChars j "tpl", parse := ← parseOf (← getStr j "parse"), emit := ← emitOf (← getStr j "emit"),
+           inferImports := flag j "infer_imports", prepend := prepend, fileImports := fileImports, tables := tables }
+
+def inputOf (j : Json) : Except String InputFile := do
+  match j.getObjVal? "json_basename" with
+  | .ok (.str b) => return .json b.toList
+  | _ =>
+    let a ← getArr j "body"
+    return .py (← a.toList.mapM entryOf)
+
+def effJ : Eff → Json
+  | .isfile _ => Json.str "isfile"
+  | .raise e => Json.str ("raise:" ++ errName e)
+  | .append _ => Json.str "append"
+
+def ops : List (String × Handler) := [
+  ("c19.fmt", fun j => do
+    return res ((fmt (← getChars j "tpl") (← getChars j "name")).map str)),
+  ("c19.valid", fun j => do
+    let s ← getChars j "s"
+    return Json.mkObj [("r", str (ensureValid s)), ("is_name", Json.bool (isPyName s))]),
+  ("c19.kwargs", fun j => do
+    let emit ← emitOf (← getStr j "emit")
+    let r := getEmitKwarg emit (← getChars j "tpl") (← getChars j "name")
+    return res (r.map (fun kw => Json.mkObj [("keys", Json.arr (kw.keys.map (fun k => Json.str (kwKeyS k))).toArray), ("name", optStr kw.name),
+                                            ("call", match callCheck emit kw with | .ok _ => Json.str "ok" | .error e => Json.str (errName e))]))),
+  ("c19.symbol", fun j => do
+    let emit ← emitOf (← getStr j "emit")
+    let nm := (getChars j "kw_name").toOption
+    return res ((symbolName emit ⟨[], nm⟩ (← getChars j "ir_name")).map str)),
+  ("c19.parser", fun j => do
+    return res ((parserFor (← parseOf (← getStr j "parse")) (← nodeOf (← j.getObjVal? "node"))).map (fun p => Json.str (parserNameS p)))),
+  ("c19.mapping", fun j => do
+    let r := fileToInputMapping (← parseOf (← getStr j "parse")) (← inputOf j)
+    return res (r.map (fun es => strs (es.map (·.name))))),
+  ("c19.allentry", fun j => do
+    let s ← getChars j "s"
+    return Json.mkObj [("entry", str (allEntry s)), ("repr", str (reprPy s))]),
+  ("c19.doc", fun j => do
+    return Json.mkObj [("truthy", Json.bool (docTruthy (← getChars j "s")))]),
+  ("c19.names", fun j => do
+    let s := stmtOf (← j.getObjVal? "stmt")
+    match collect s with
+    | .ok l => return Json.mkObj [("ok", strs (sortDedup l))]
+    | .error e => return Json.mkObj [("error", Json.str (inferErrS (.collect e)))]),
+  ("c19.gettypes", fun j => do
+    match getTypes (parseAnn (← getChars j "ann")) with
+    | .error _ => return Json.mkObj [("error", Json.str "AssertionError")]
+    | .ok Option.none => return Json.mkObj [("ok", Json.null)]
+    | .ok (some items) => return Json.mkObj [("ok", Json.arr (items.map (fun i => match i with | .s v => str v | .nonStr => Json.null)).toArray)]),
+  ("c19.infer", fun j => do
+    let t ← tablesOf j
+    let stmts := moduleOf (← j.getObjVal? "stmts")
+    match inferred t stmts with
+    | .ok l => return Json.mkObj [("ok", impsJ l)]
+    | .error e => return Json.mkObj [("error", Json.str (inferErrS e))]),
+  ("c19.reorder", fun j => do
+    return Json.mkObj [("body", moduleJ (reorder (moduleOf (← j.getObjVal? "body"))))]),
+  ("c19.gen", fun j => do
+    let cfg ← cfgOf j
+    let input ← inputOf j
+    let entries ← getArr j "world"
+    let W := worldOf entries
+    let run := gen W cfg input
+    let output := (getStr j "output").toOption.getD "out.py"
+    let phase := (getInt j "phase").toOption.getD 0
+    let trace := mainGen (fun _ => flag j "exists") output phase run
+    -- expected symbol names by the emitters' naming contract
+    let expected : List Json := match fileToInputMapping cfg.parse input with
+      | .error _ => []
+      | .ok es => es.map (fun e =>
+          match (do
+            let pn ← parserFor cfg.parse e.node
+            let irn ← W.parse pn e
+            let kw ← getEmitKwarg cfg.emit cfg.tpl e.name
+            symbolName cfg.emit kw irn) with
+          | .ok n => str n
+          | .error _ => Json.null)
+    let out := match run with
+      | .ok (.module body) => Json.mkObj [("module", moduleJ body)]
+      | .ok (.json o) => Json.mkObj [("ids", strs o.ids), ("wrapped", Json.bool o.wrapped)]
+      | .error e => Json.mkObj [("error", Json.str (errName e))]
+    return Json.mkObj [("trace", Json.arr (trace.map effJ).toArray), ("run", out), ("expected_symbols", Json.arr expected.toArray)])
+]
 end Driver.C19
